@@ -5,7 +5,7 @@
 (* (events computed by BiomModel), so the model is checked against exactly *)
 (* the clause set the implementation is judged by.                         *)
 (***************************************************************************)
-EXTENDS BiomProps5
+EXTENDS BiomProps6
 
 CallClauses(ev) ==
   CASE ev.call = "filter" ->
@@ -22,6 +22,8 @@ CallClauses(ev) ==
     [] ev.call = "read"         -> Clauses_read(ev)
     [] ev.call = "probe"        -> Clauses_probe(ev)
     [] ev.call = "eq"           -> Clauses_eq(ev)
+    [] ev.call = "eqx"          -> Clauses_eqx(ev)
+    [] ev.call = "eq3"          -> Clauses_eq3(ev)
     [] ev.call = "add_metadata" -> Clauses_add_metadata(ev)
     [] ev.call = "del_metadata" -> Clauses_del_metadata(ev)
     [] ev.call = "transform"    -> Clauses_transform(ev) @@ ElementwiseClause(ev) @@ InplaceClauses(ev)
@@ -55,7 +57,7 @@ CallProp(call) ==
     [] call \in {"add_metadata", "del_metadata", "cli_add_metadata", "mapfile"} -> "C18"
     [] call \in {"construct", "construct_bad", "from_adjacency", "parse_uc"} -> "C17"
     [] call = "rt_hdf5" -> "C01" [] call = "rt_json" -> "C02" [] call = "rt_tsv" -> "C03" [] call = "subset_read" -> "C14"
-    [] call = "summary" -> "C19" [] call = "validate" -> "C15" [] call = "eq" -> "C16"
+    [] call = "summary" -> "C19" [] call = "validate" -> "C15" [] call \in {"eq", "eqx", "eq3"} -> "C16"
     [] OTHER -> "C05"
 
 \* clauses index tables by position; if some logged table is not even well-shaped they are
